@@ -39,10 +39,12 @@ package keeper
 // ---- C13 / C18: completion callback ------------------------------------------------------------------
 //@ spec payAll(b BankState, ms []sdk.AccAddress, k Int, fee sdk.Coins) BankState = k <= 0 ? b : bankM2A(payAll(b, ms, k - 1, fee), types.ModuleName, ms[k-1], fee)
 
+// adding a group's members writes member records of THAT group only
 //@ func (k Keeper) AddMembers
-//@ trusted
-//@ modifies Store_bandtss, Other
-//@ ensures Store_bandtss[types.GroupTransitionStoreKey] == old(Store_bandtss)[types.GroupTransitionStoreKey]
+//@ may_panic
+//@ modifies Store_bandtss
+//@ ensures forall q Bz :: !(iskey(types.MemberStoreKey, q) && keyarg(types.MemberStoreKey, q, 1) == groupID) ==> Store_bandtss[q] == old(Store_bandtss)[q]
+//@ loop 0: invariant forall q Bz :: !(iskey(types.MemberStoreKey, q) && keyarg(types.MemberStoreKey, q, 1) == groupID) ==> Store_bandtss[q] == old(Store_bandtss)[q]
 //@ func (k Keeper) ExtractEventAttributesFromTransition
 //@ trusted
 
@@ -75,6 +77,23 @@ package keeper
 //@ modifies Store_bandtss, Other
 //@ ensures err == nil ==> !old(bTransitionHas(Store_bandtss))
 //@ ensures err == nil ==> req.Authority == k.Keeper.authority
+// ... with an execution time inside the allowed window; the recorded transition starts in CREATING_GROUP (not forced),
+// from the current group, scheduled for exactly the requested time
+//@ ensures err == nil ==> !req.ExecTime.Before(sdkctx(goCtx).BlockTime().Add(old(bParams(Store_bandtss)).MinTransitionDuration)) && !req.ExecTime.After(sdkctx(goCtx).BlockTime().Add(old(bParams(Store_bandtss)).MaxTransitionDuration))
+//@ ensures err == nil ==> bTransitionHas(Store_bandtss) && bTransitionAt(Store_bandtss).Status == types.TRANSITION_STATUS_CREATING_GROUP && !bTransitionAt(Store_bandtss).IsForceTransition
+//@        && bTransitionAt(Store_bandtss).ExecTime == req.ExecTime && bTransitionAt(Store_bandtss).CurrentGroupID == old(curGroup(Store_bandtss)) && bTransitionAt(Store_bandtss).SigningID == 0
+//@ loop 0: invariant Store_bandtss == old(Store_bandtss)
+
+// C18: a forced transition also needs the authority, no transition in progress and a valid execution time, and an
+// ACTIVE incoming group different from the current one; it is recorded as forced, directly WAITING_EXECUTION.
+//@ func (k msgServer) ForceTransitionGroup
+//@ may_panic
+//@ modifies Store_bandtss, Other
+//@ ensures err == nil ==> req.Authority == k.Keeper.authority && !old(bTransitionHas(Store_bandtss))
+//@ ensures err == nil ==> !req.ExecTime.Before(sdkctx(goCtx).BlockTime().Add(old(bParams(Store_bandtss)).MinTransitionDuration)) && !req.ExecTime.After(sdkctx(goCtx).BlockTime().Add(old(bParams(Store_bandtss)).MaxTransitionDuration))
+//@ ensures err == nil ==> req.IncomingGroupID != old(curGroup(Store_bandtss)) && types.tssGroup(old(Other), req.IncomingGroupID).Status == tsstypes.GROUP_STATUS_ACTIVE
+//@ ensures err == nil ==> bTransitionHas(Store_bandtss) && bTransitionAt(Store_bandtss).Status == types.TRANSITION_STATUS_WAITING_EXECUTION && bTransitionAt(Store_bandtss).IsForceTransition
+//@        && bTransitionAt(Store_bandtss).ExecTime == req.ExecTime && bTransitionAt(Store_bandtss).IncomingGroupID == req.IncomingGroupID && bTransitionAt(Store_bandtss).CurrentGroupID == old(curGroup(Store_bandtss))
 
 // ---- C13: paid signing requests ---------------------------------------------------------------------------
 //@ spec bParams(s Store) types.Params = has(s, types.ParamsKey) ? dec(types.Params, s[types.ParamsKey]) : zero(types.Params)
@@ -119,3 +138,51 @@ package keeper
 //@ modifies Store_bandtss, Bank, Other
 //@ ensures err == nil ==> !tsstypes.contentInternal(absfn("types.MsgRequestSignature.GetContent", req))
 //@ ensures tsstypes.contentInternal(absfn("types.MsgRequestSignature.GetContent", req)) ==> Store_bandtss == old(Store_bandtss) && Bank == old(Bank) && Other == old(Other)
+
+// ---- C18: executing / dropping a transition ----------------------------------------------------------------
+// removing a group's members removes member records of THAT group only
+//@ func (k Keeper) DeleteMembers
+//@ may_panic
+//@ modifies Store_bandtss
+//@ ensures forall q Bz :: !(iskey(types.MemberStoreKey, q) && keyarg(types.MemberStoreKey, q, 1) == groupID) ==> Store_bandtss[q] == old(Store_bandtss)[q]
+//@ loop 0: invariant forall q Bz :: !(iskey(types.MemberStoreKey, q) && keyarg(types.MemberStoreKey, q, 1) == groupID) ==> Store_bandtss[q] == old(Store_bandtss)[q]
+
+// C18: the exec-time window of a proposed transition: not before now + MinTransitionDuration, not after
+// now + MaxTransitionDuration
+//@ func (k Keeper) ValidateTransitionExecTime
+//@ ensures err == nil <==> (!execTime.Before(ctx.BlockTime().Add(bParams(Store_bandtss).MinTransitionDuration)) && !execTime.After(ctx.BlockTime().Add(bParams(Store_bandtss).MaxTransitionDuration)))
+
+// hand-over signing request (charged to the module account, goes through the tss keeper): assumed; it does not
+// touch the transition record
+//@ func (k Keeper) CreateTransitionSigning
+//@ trusted
+//@ modifies Store_bandtss, Bank, Other
+//@ ensures Store_bandtss[types.GroupTransitionStoreKey] == old(Store_bandtss)[types.GroupTransitionStoreKey]
+
+// C18: the transition state machine is driven by the tss callbacks. Completion of the incoming group's creation
+// matters only for the transition that is waiting for exactly that group (CREATING_GROUP) and is not overdue; it
+// records the new group's key and moves to WAITING_EXECUTION when there is no current group (nothing to hand
+// over), else to WAITING_SIGN with the id of the hand-over signing just requested - or drops the transition when
+// that request fails (in which case nothing of the attempt persists). Anything else: no effect.
+//@ spec cgTrigger(s Store, g Int, now Int) Bool = bTransitionHas(s) && bTransitionAt(s).IncomingGroupID == g && bTransitionAt(s).Status == types.TRANSITION_STATUS_CREATING_GROUP && !(bTransitionAt(s).ExecTime < now)
+//@ func (cb TSSCallback) OnGroupCreationCompleted
+//@ may_panic
+//@ modifies Store_bandtss, Bank, Other
+//@ ensures !old(cgTrigger(Store_bandtss, groupID, ctx.BlockTime())) ==> Store_bandtss == old(Store_bandtss) && Bank == old(Bank) && Other == old(Other)
+//@ ensures old(cgTrigger(Store_bandtss, groupID, ctx.BlockTime())) && !bTransitionHas(Store_bandtss) ==> old(bTransitionAt(Store_bandtss)).CurrentGroupID != 0 && Store_bandtss == remove(old(Store_bandtss), types.GroupTransitionStoreKey) && Bank == old(Bank) && Other == old(Other)
+//@ ensures old(cgTrigger(Store_bandtss, groupID, ctx.BlockTime())) && bTransitionHas(Store_bandtss) ==>
+//@     (let t0 = old(bTransitionAt(Store_bandtss)) in let t1 = bTransitionAt(Store_bandtss) in
+//@      t1.IncomingGroupID == t0.IncomingGroupID && t1.CurrentGroupID == t0.CurrentGroupID && t1.ExecTime == t0.ExecTime && t1.IsForceTransition == t0.IsForceTransition
+//@      && t1.IncomingGroupPubKey == types.tssGroup(old(Other), groupID).PubKey
+//@      && (t0.CurrentGroupID == 0 ==> t1.Status == types.TRANSITION_STATUS_WAITING_EXECUTION && t1.SigningID == t0.SigningID)
+//@      && (t0.CurrentGroupID != 0 ==> t1.Status == types.TRANSITION_STATUS_WAITING_SIGN))
+
+// a failed or expired group creation drops exactly the transition that was waiting for that group
+//@ func (cb TSSCallback) OnGroupCreationFailed
+//@ modifies Store_bandtss
+//@ ensures (old(bTransitionHas(Store_bandtss)) && old(bTransitionAt(Store_bandtss)).IncomingGroupID == groupID && old(bTransitionAt(Store_bandtss)).Status == types.TRANSITION_STATUS_CREATING_GROUP)
+//@            ? Store_bandtss == remove(old(Store_bandtss), types.GroupTransitionStoreKey) : Store_bandtss == old(Store_bandtss)
+//@ func (cb TSSCallback) OnGroupCreationExpired
+//@ modifies Store_bandtss
+//@ ensures (old(bTransitionHas(Store_bandtss)) && old(bTransitionAt(Store_bandtss)).IncomingGroupID == groupID && old(bTransitionAt(Store_bandtss)).Status == types.TRANSITION_STATUS_CREATING_GROUP)
+//@            ? Store_bandtss == remove(old(Store_bandtss), types.GroupTransitionStoreKey) : Store_bandtss == old(Store_bandtss)
